@@ -163,6 +163,10 @@ def _fionread(fd):
         return -1
 
 
+class _Abort(BaseException):
+    """Injected into the main thread after a certified deadlock if the code under test keeps spinning."""
+
+
 class _StretchedSignal:
     """The `signal` module as seen by pkgcore.ebuild.processor, with interval timers 120x longer."""
 
@@ -268,6 +272,7 @@ class RealPair:
         "fail2": "echo verif-line1 >&2\necho verif-line2 >&2\nexit 1",
     }
     PHASE_SNIPPET = {
+        "nfdie": 'nonfatal die -n "verif nonfatal die" || :',
         "ipc_ok": "best_version cat/none",
         "ipc_err": "best_version '<<bad'",
         "bogus": f"__ebd_write_line {BOGUS_D}",
@@ -349,6 +354,17 @@ class RealPair:
                         os.killpg(pid, signal.SIGKILL)
                     except OSError:
                         pass
+                    # Python code that reads on after EOF (chuck_DyingInterrupt waits for "dead" forever)
+                    # would spin: once the deadlock is on record, unwind the main thread
+                    import ctypes
+
+                    t1 = time.time()
+                    while not state["stop"] and time.time() - t1 < 60:
+                        time.sleep(1.0)
+                        if not state["stop"]:
+                            ctypes.pythonapi.PyThreadState_SetAsyncExc(
+                                ctypes.c_ulong(threading.main_thread().ident), ctypes.py_object(_Abort)
+                            )
                     return
 
         wd = threading.Thread(target=watchdog, daemon=True)
@@ -369,9 +385,15 @@ class RealPair:
                         continue  # ebuild_src: MetadataException, the processor is released for reuse
                     break
         finally:
-            signal.setitimer(signal.ITIMER_REAL, 0)
             state["stop"] = True
-            wd.join()
+            signal.setitimer(signal.ITIMER_REAL, 0)
+            try:
+                wd.join()
+            except _Abort:
+                wd.join()
+            import ctypes
+
+            ctypes.pythonapi.PyThreadState_SetAsyncExc(ctypes.c_ulong(threading.main_thread().ident), None)
             processor._verif_c35_pid = None
             with open(self.trace_path) as f:
                 raw = f.read().splitlines()
